@@ -159,8 +159,13 @@ def run(ctx):
     tasks = [{"seed": ctx.seed, "shard": i, "count": 8 if quick else 300, "steps": 50 if quick else 120, "nmax": 8, "big": 1 if quick else 4, "big_steps": 20,
               "monitors": ["wellformed"]} for i in range(shards)]
     ctx.map("vlib.histrun", "history_task", tasks, timeout=3000)
+    # the same with assert statements switched off (python -O): no edit or move may depend on a side effect of an assertion
+    otasks = [dict(t, shard=100 + t["shard"], count=max(3, t["count"] // 4), big=0) for t in tasks[:4 if quick else 16]]
+    ctx.map("vlib.histrun", "history_task", otasks, timeout=3000, python_flags=("-O",))
     tasks = [{"seed": ctx.seed, "shard": i, "count": 10 if quick else 150, "moves": 8} for i in range(shards)]
     ctx.map("checks.c07", "sampler_task", tasks, timeout=3000)
+    ctx.map("checks.c07", "sampler_task", [dict(t, shard=100 + t["shard"], count=max(4, t["count"] // 3)) for t in tasks[:4 if quick else 16]],
+            timeout=3000, python_flags=("-O",))
     tasks = [{"seed": ctx.seed, "shard": i, "count": 4 if quick else 40, "iters": 5 if quick else 10} for i in range(shards)]
     ctx.map("checks.c07", "chain_task", tasks, timeout=3000)
     for k in ("wellformed_evaluations", "tree_invariant", "retained_path", "boundary_ParticleGibbsTreeSampler",
